@@ -320,15 +320,27 @@ pub fn c07_built_case(ctx: &mut Ctx, tape: &[u8]) -> CaseResult {
         f2.max_tx_size_override = Some((size - d) as u32);
         if let Some(o2) = scenario::run(tape, f2) {
             ctx.label("tight-size-limit:second-pass");
-            if let Some(t2) = &o2.tx {
-                let b2 = t2.to_bytes();
-                if let Ok(v2) = TxView::parse(&b2) {
-                    if let Ok((s2, _, _)) = signed_size(&v2, &o2) {
-                        ctx.label("tight-size-limit:built-anyway");
-                        ensure!(s2 <= size - d, "built/transaction-too-large/limit-just-below-its-size", "with max_tx_size = {} (the same history built {} signed bytes under a loose limit) build_tx returns a transaction of {} signed bytes; {}", size - d, size, s2, describe(&o2));
+            // every entry point that hands out a whole transaction: build_tx and build_tx_unsafe ("unsafe" skips the
+            // balance / fee / witness validation, not the size limit: it goes through build() like the others)
+            let mut any = false;
+            for (how, t2) in [("build_tx", &o2.tx), ("build_tx_unsafe", &o2.tx_unsafe)] {
+                if let Some(t2) = t2 {
+                    let b2 = t2.to_bytes();
+                    if let Ok(v2) = TxView::parse(&b2) {
+                        if let Ok((s2, _, _)) = signed_size(&v2, &o2) {
+                            any = true;
+                            ctx.label(&format!("tight-size-limit:built-anyway:{}", how));
+                            ensure!(
+                                s2 <= size - d,
+                                if how == "build_tx" { "built/transaction-too-large/limit-just-below-its-size".to_string() } else { format!("built/transaction-too-large/limit-just-below-its-size/{}", how) },
+                                "with max_tx_size = {} (the same history built {} signed bytes under a loose limit) {} returns a transaction of {} signed bytes; {}",
+                                size - d, size, how, s2, describe(&o2)
+                            );
+                        }
                     }
                 }
-            } else {
+            }
+            if !any {
                 ctx.label("tight-size-limit:refused");
             }
         }
@@ -344,6 +356,7 @@ pub fn c07_built_case(ctx: &mut Ctx, tape: &[u8]) -> CaseResult {
 pub fn c03_builder_case(ctx: &mut Ctx, tape: &[u8]) -> CaseResult {
     let mut focus = Focus::general();
     focus.governance = 70;
+    focus.alt_datums = false;
     let o = match built_tx(ctx, tape, focus) {
         Some(o) => o,
         None => {
@@ -442,6 +455,9 @@ pub fn c10_case(ctx: &mut Ctx, tape: &[u8]) -> CaseResult {
     focus.assets = 20;
     focus.max_ops = 18;
     focus.re_register = true;
+    // half of the cases: bursts of one script purpose, so that several reward / vote / certificate / proposal
+    // pointers have to be told apart in one transaction
+    focus.bursts = true;
     let o = match built_tx(ctx, tape, focus) {
         Some(o) => o,
         None => {
